@@ -318,6 +318,32 @@ def count_decay_clip(streams_out):
     return n_both, n_clipped
 
 
+def report_violations(chk, judged, quick, max_shrunk=3, max_reports=8):
+    """One report per (algorithm, operation, failure class); the first few are shrunk."""
+    groups = {}
+    for j in judged:
+        hist = cut_history(j["lines"])
+        op, cls = classify(j["line"], j["impl"], j.get("spec", ""))
+        groups.setdefault((kind_of(hist), op, cls), (hist, j))
+    for n, ((kind, op, cls), (hist, j)) in enumerate(sorted(groups.items(), key=lambda kv: kv[0])):
+        if n >= max_reports:
+            break
+        small, im, sp, at = hist, j["impl"], j.get("spec", ""), len(hist) - 1
+        if n < max_shrunk:
+            def still(c, op=op, cls=cls):
+                f = ol.fails_on_impl(c)
+                return f is not None and classify(c[f[0]], f[1], f[2]) == (op, cls)
+            if still(hist):
+                small = vcheck.shrink(hist, still, max_runs=30 if quick else 60)
+                f = ol.fails_on_impl(small)
+                if f is not None:
+                    small, at, im, sp = small[: f[0] + 1], f[0], f[1], f[2]
+        key = ("optim:%s:%s:%s:%s" % (kind, op, cls, " | ".join(small)))[:900]
+        chk.report(key, "%s history: `%s` -> implementation `%s`, the equations / documented behaviour give `%s`" % (
+            kind, small[at], im[:200], sp[:200]),
+            {"family": "optim", "harness": "h_optim", "stateful": True, "lines": small, "expected_spec": sp, "observed_impl": im})
+
+
 def run(chk):
     quick = chk.tier == "quick"
     tr.generate()
@@ -373,29 +399,7 @@ def run(chk):
     chk.extra_cov["values_compared_exactly_as_rationals"] = R.model_cmp.exact_values
     chk.extra_cov["max_relative_deviation_impl_vs_model_float32"] = R.model_cmp.max_dev
     chk.extra_cov["max_relative_deviation_impl_vs_spec_float32"] = R.spec_cmp.max_dev
-    seen = set()
-    # 1. property violations on the implementation (verdict of the specification engine)
-    for j in judged:
-        hist = cut_history(j["lines"])
-        first = ol.fails_on_impl(hist)
-        if first is None:
-            continue
-        i, im, sp = first
-        op, cls = classify(hist[i], im, sp)
-        kind = kind_of(hist)
-        if (kind, op, cls) in seen:
-            continue
-        seen.add((kind, op, cls))
-
-        def still(c, op=op, cls=cls):
-            f = ol.fails_on_impl(c)
-            return f is not None and classify(c[f[0]], f[1], f[2]) == (op, cls)
-        small = vcheck.shrink(hist[: i + 1], still, max_runs=40 if quick else 80)
-        f = ol.fails_on_impl(small) or (len(small) - 1, im, sp)
-        key = "optim:%s:%s:%s:%s" % (kind, op, cls, " | ".join(small))[:900]
-        chk.report(key, "%s history: `%s` -> implementation `%s`, the equations / documented behaviour give `%s`" % (
-            kind, small[f[0]], f[1][:200], f[2][:200]),
-            {"family": "optim", "harness": "h_optim", "stateful": True, "lines": small, "expected_spec": f[2], "observed_impl": f[1]})
+    report_violations(chk, judged, quick)
     # 2. model != implementation although the implementation meets the specification
     if not chk.violations:
         for d in dis:
